@@ -58,7 +58,13 @@ TBuilder ==
 TText ==
   /\ l <= Len(Rec) /\ Rec[l].event = "Parse" /\ l' = l + 1
   /\ LET r == Rec[l]
-     IN IF PROP # "C07" THEN TRUE
+     IN IF PROP = "C06"
+        THEN \* standard text of a valid position is understood: accepted, and as the position it describes
+             (IF r.wellformed
+              THEN LET I == [InPos(r) EXCEPT !.ep = ReadFen(r.text).ep]
+                   IN (KingsOK(I.b) /\ Valid(I)) => (r.ret = "ok" /\ SameAsInput(I, OutPos(r)))
+              ELSE TRUE) = TRUE
+        ELSE IF PROP # "C07" THEN TRUE
         ELSE IF r.wellformed
         THEN (/\ ReadFen(r.text) = [InPos(r) EXCEPT !.ep = ReadFen(r.text).ep]     \* the text says what the harness meant
               /\ Judge(r, [InPos(r) EXCEPT !.ep = ReadFen(r.text).ep], TRUE)) = TRUE
